@@ -246,7 +246,9 @@ Enter(st0, n, rest, cf) ==
     [] n.kind = "Container" -> Go(top, kids)
     [] n.kind = "Link" ->
          LET r == AddInlineText(PushAnn(top, Tag(cf, <<"L", n.href.s>>)), cf.ds.link[1], cf) IN
-         [Go(r, kids \o <<It("link_out")>>) EXCEPT !.links = Append(@, n.href.c)]
+         \* (the exit half carries the number the link got when it started - TextRenderer.open_links: links nest through
+         \* a table cell, and an inner link must not renumber the reference of the outer one)
+         [Go(r, kids \o << [e |-> "link_out", num |-> Len(st.links) + 1] >>) EXCEPT !.links = Append(@, n.href.c)]
     [] n.kind = "Em" -> Go(AddInlineText(PushAnn(top, Tag(cf, <<"E">>)), cf.ds.em[1], cf), kids \o << [e |-> "ann_out", s |-> cf.ds.em[2]] >>)
     [] n.kind = "Strong" -> Go(AddInlineText(PushAnn(top, Tag(cf, <<"S">>)), cf.ds.strong[1], cf), kids \o << [e |-> "ann_out", s |-> cf.ds.strong[2]] >>)
     [] n.kind = "Code" -> Go(AddInlineText(PushAnn(top, Tag(cf, <<"C">>)), cf.ds.code[1], cf), kids \o << [e |-> "ann_out", s |-> cf.ds.code[2]] >>)
@@ -303,7 +305,7 @@ RStep(st, cf) ==
          Done(PopAnn(AddInlineText(IF cf.strike THEN [top EXCEPT !.filt = @ - 1] ELSE top, cf.ds.strike[2], cf)))
     [] it.e = "link_out" ->
          LET r1 == PopAnn(AddInlineText(top, cf.ds.link[2], cf))
-             r2 == IF cf.footnotes THEN AddInlineText(r1, <<C2(91)>> \o NumCells(Len(st.links)) \o <<C2(93)>>, cf) ELSE r1
+             r2 == IF cf.footnotes THEN AddInlineText(r1, <<C2(91)>> \o NumCells(it.num) \o <<C2(93)>>, cf) ELSE r1
          IN Done(r2)
     [] it.e = "sub_in" ->
          LET w == WidthMinus(top, it.pw, it.minw, cf) IN
